@@ -51,6 +51,7 @@ func main() {
 	dir := flag.String("dir", sourceDir(), "directory holding runner.js")
 	workers := flag.Int("workers", 0, "node processes (default: cores-2)")
 	dump := flag.String("dump", "", "debug: write generated programs to this file")
+	doShrink := flag.Bool("shrink", false, "witness mode: also shrink a failing witness (triage aid)")
 	flag.Parse()
 	if *outDir == "" {
 		fmt.Fprintln(os.Stderr, "jsoracle: -out is required")
@@ -89,7 +90,7 @@ func main() {
 	res.Rule = "distinct_nontrivial counts the distinct generated programs (by SHA-256 of the text) that were judged under at least one configuration and whose default-configuration minified text differs from the input after removing all whitespace"
 	start := time.Now()
 	if *witness != "" {
-		if err := runWitness(ev, res, *witness); err != nil {
+		if err := runWitness(ev, res, *witness, *doShrink); err != nil {
 			fmt.Fprintln(os.Stderr, "jsoracle:", err)
 			os.Exit(2)
 		}
@@ -115,7 +116,7 @@ func parseConfig(opts map[string]string) config {
 	return c
 }
 
-func runWitness(ev *evaluator, res *vh.Result, file string) error {
+func runWitness(ev *evaluator, res *vh.Result, file string, doShrink bool) error {
 	b, err := os.ReadFile(file)
 	if err != nil {
 		return err
@@ -143,7 +144,11 @@ func runWitness(ev *evaluator, res *vh.Result, file string) error {
 		res.DistinctNontrivial = 1
 	}
 	if v.kind != "" {
-		res.Violations = append(res.Violations, makeViolation(input, c, v, 0, "witness replay (not shrunk)"))
+		note := "witness replay (not shrunk)"
+		if doShrink {
+			input, v, note = shrinkCase(ev, input, nil, c, v, time.Now().Add(60*time.Second))
+		}
+		res.Violations = append(res.Violations, makeViolation(input, c, v, 0, note))
 	}
 	return nil
 }
@@ -278,6 +283,17 @@ func runGeneration(ev *evaluator, res *vh.Result, seed uint64, n int, tier strin
 				continue
 			}
 			anyJudged = true
+			if v.kind != "" {
+				// confirm once more (alone, with a doubled timeout) to rule out load-dependent flakes
+				slow := &evaluator{pool: ev.pool, timeout: 2 * ev.timeout}
+				v2 := slow.evalProgram(c.prog.Text, c.prog.Probes, []config{c.cfgs[j]})[0]
+				if !v2.judged || v2.kind != v.kind {
+					res.NotJudged++
+					res.Hist("not_judged", "unconfirmed-"+v.kind)
+					continue
+				}
+				v = v2
+			}
 			res.Evaluations++
 			res.Hist("config", c.cfgs[j].String())
 			if v.kind != "" {
